@@ -327,15 +327,26 @@ structure St (G H W : Type) where
   obj : Obj G H W
   arg : Obj G H W
 
-/-- one step of a history on the live object; `fills` is the (kind-dependent) table of memo slots
-    each read leaves filled -/
-def opStep (fills : Kind → Read → List Slot) (s : St G H W) : Op H → St G H W
-  | .read r => { s with obj := fill s.heap s.obj (fills s.obj.kind r) }
-  | .read2 r => { s with obj := fill s.heap s.obj (fills s.obj.kind r),
-                         arg := fill s.heap s.arg (fills s.arg.kind r) }
+/-- Which memoised observations a read goes through may depend on the kind and on whether the shape has
+    time bounds (`volume` returns `0.` without looking at `area` when `dt is None`).  Each entry is a
+    memoised observation together with the memoised observations *its computation* goes through
+    (`area` calls `to_shapely()`); an entry that is already memoised returns at once. -/
+abbrev FillTable := Kind → Bool → Read → List (Slot × List Slot)
+
+def effSlots (o : Obj G H W) (es : List (Slot × List Slot)) : List Slot :=
+  es.flatMap fun e => if (o.cache e.1).isSome then [] else e.1 :: e.2
+
+def Obj.fillsOf (fills : FillTable) (o : Obj G H W) (r : Read) : List Slot :=
+  effSlots o (fills o.kind o.dt.isSome r)
+
+/-- one step of a history on the live object; `fills` is the table of memo slots each read leaves filled -/
+def opStep (fills : FillTable) (s : St G H W) : Op H → St G H W
+  | .read r => { s with obj := fill s.heap s.obj (s.obj.fillsOf fills r) }
+  | .read2 r => { s with obj := fill s.heap s.obj (s.obj.fillsOf fills r),
+                         arg := fill s.heap s.arg (s.arg.fillsOf fills r) }
   | .update m ip => let r := step s.heap s.obj m ip; { s with heap := r.heap, obj := r.self }
 
-def run (fills : Kind → Read → List Slot) (s : St G H W) : List (Op H) → St G H W
+def run (fills : FillTable) (s : St G H W) : List (Op H) → St G H W
   | [] => s
   | op :: ops => run fills (opStep fills s op) ops
 
